@@ -18,10 +18,11 @@ def judge_final(ctx, athlib, ops, c, r, stats):
     if r.fuzzy: stats['abstained'] += 1; return
     hist = H.fmt_ops(ops)
     def fail(expected, got, note):
-        ctx.fail('HighJumpCompetition', hist, expected, got, note=note, replay_py=H.replay_py(ops))
+        fl = getattr(c, '_verif_float', False)
+        ctx.fail('HighJumpCompetition', hist + (['(bar heights passed as float)'] if fl else []), expected, got, note=note + (' [float heights]' if fl else ''), replay_py=H.replay_py(ops, fl))
     if c.state != r.phase:
         fail('state %s' % r.phase, c.state, 'wrong final state'); return
-    bests = {int(j.bib): int(j.highest_cleared * 100) for j in c.jumpers}
+    bests = {int(j.bib): int(round(j.highest_cleared * 100)) for j in c.jumpers}
     rb = {b: (r.best(b) or 0) for b in r.bibs}
     if bests != rb:
         fail('best = greatest height ever cleared %r' % rb, repr(bests), 'best is not the greatest height cleared')
@@ -66,7 +67,7 @@ def run(ctx):
         for op in ops[:-1]:
             lines.append(H.op_line(op)); expect.append(None)
         # the model must end in the same observable state (only the last reply is compared: outcome + snapshot)
-        c2 = H.new_comp(athlib)
+        c2 = H.new_comp(athlib, getattr(c, '_verif_float', False))
         for op in ops[:-1]: H.apply_op(athlib, c2, op)
         out = H.apply_op(athlib, c2, ops[-1]) if ops else 'ok'
         if ops:
@@ -87,6 +88,10 @@ def run(ctx):
         if i % 3 != 2:
             ops, c, r = H.gen_competition(rng, athlib, nath=rng.randint(2, 4), nheights=rng.randint(1, 3), jo_heights=3 if ctx.quick() else 5,
                                           att_choice=lambda g: g.choice(['o', 'o', 'o', 'xo', 'xo', 'xxx', 'xxx']))
+        elif i % 2:
+            # bar heights as Python floats (as the unit tests pass them), from anywhere between 1.00 and 2.60, 1-5 cm steps
+            ops, c, r = H.gen_competition(rng, athlib, float_heights=True, h0=rng.randint(100, 260), steps=(1, 1, 2, 3, 5),
+                                          att_choice=(lambda g: g.choice(['o', 'o', 'o', 'xo', 'xo', 'xxx', 'xxx'])) if i % 4 == 1 else None)
         else:
             ops, c, r = H.gen_competition(rng, athlib)
         run_one(ops, c, r)
